@@ -1,0 +1,109 @@
+//go:build verif
+
+package try
+
+// BOUNDED stand-ins (never counted as proved) for the loop-based traversals of Try — property C02:
+// FoldM / Traverse / TraverseSeq / TraverseSlice / Traverse_ / Sequence on literal inputs of length 0..3
+// with symbolic elements and callbacks, compared (value AND callback trace: which calls, in which order,
+// with which arguments) with the explicit left-to-right short-circuit program.  Every failure position of
+// a three-element input is one branch of that program.
+
+//@ import "github.com/csgura/fp/iterator"
+//
+//@ ghost
+//@ func specFoldM3[A, B any](a, b, c A, z B, f func(B, A) fp.Try[B]) fp.Try[B] {
+//@ 	t1 := f(z, a)
+//@ 	if !t1.IsSuccess() {
+//@ 		return t1
+//@ 	}
+//@ 	t2 := f(t1.Get(), b)
+//@ 	if !t2.IsSuccess() {
+//@ 		return t2
+//@ 	}
+//@ 	return f(t2.Get(), c)
+//@ }
+//@ func specTraverse3[A, R any](a, b, c A, fn func(A) fp.Try[R]) fp.Try[fp.Seq[R]] {
+//@ 	r1 := fn(a)
+//@ 	if !r1.IsSuccess() {
+//@ 		return fp.Failure[fp.Seq[R]](r1.Failed().Get())
+//@ 	}
+//@ 	r2 := fn(b)
+//@ 	if !r2.IsSuccess() {
+//@ 		return fp.Failure[fp.Seq[R]](r2.Failed().Get())
+//@ 	}
+//@ 	r3 := fn(c)
+//@ 	if !r3.IsSuccess() {
+//@ 		return fp.Failure[fp.Seq[R]](r3.Failed().Get())
+//@ 	}
+//@ 	return fp.Success(fp.Seq[R]{r1.Get(), r2.Get(), r3.Get()})
+//@ }
+//@ func specTraverseUnit3[A, R any](a, b, c A, fn func(A) fp.Try[R]) error {
+//@ 	r1 := fn(a)
+//@ 	if !r1.IsSuccess() {
+//@ 		return r1.Failed().Get()
+//@ 	}
+//@ 	r2 := fn(b)
+//@ 	if !r2.IsSuccess() {
+//@ 		return r2.Failed().Get()
+//@ 	}
+//@ 	r3 := fn(c)
+//@ 	if !r3.IsSuccess() {
+//@ 		return r3.Failed().Get()
+//@ 	}
+//@ 	return nil
+//@ }
+//@ func specSequence3[A any](ta, tb, tc fp.Try[A]) fp.Try[fp.Seq[A]] {
+//@ 	if !ta.IsSuccess() {
+//@ 		return fp.Failure[fp.Seq[A]](ta.Failed().Get())
+//@ 	}
+//@ 	if !tb.IsSuccess() {
+//@ 		return fp.Failure[fp.Seq[A]](tb.Failed().Get())
+//@ 	}
+//@ 	if !tc.IsSuccess() {
+//@ 		return fp.Failure[fp.Seq[A]](tc.Failed().Get())
+//@ 	}
+//@ 	return fp.Success(fp.Seq[A]{ta.Get(), tb.Get(), tc.Get()})
+//@ }
+//@ func seqOfIter[R any](t fp.Try[fp.Iterator[R]]) fp.Try[fp.Seq[R]] {
+//@ 	if !t.IsSuccess() {
+//@ 		return fp.Failure[fp.Seq[R]](t.Failed().Get())
+//@ 	}
+//@ 	return fp.Success(fp.Seq[R](t.Get().ToSeq()))
+//@ }
+//@ func seqOfSlice[R any](t fp.Try[[]R]) fp.Try[fp.Seq[R]] {
+//@ 	if !t.IsSuccess() {
+//@ 		return fp.Failure[fp.Seq[R]](t.Failed().Get())
+//@ 	}
+//@ 	return fp.Success(fp.Seq[R](t.Get()))
+//@ }
+//@ end
+//
+//@ lemma tryFoldM3[A, B any](a, b, c A, z B, f func(B, A) fp.Try[B])
+//@   prop C02
+//@   option unroll
+//@   ensures EqT(FoldM(fp.IteratorOfSeq(fp.Seq[A]{a, b, c}), z, f), specFoldM3(a, b, c, z, f))
+//@   tag firstFailureWinsLaterNotCalled
+//@   ensures EqT(FoldM(fp.IteratorOfSeq(fp.Seq[A]{}), z, f), fp.Success(z))
+//@   tag empty
+//
+//@ lemma tryTraverse3[A, R any](a, b, c A, fn func(A) fp.Try[R])
+//@   prop C02
+//@   option unroll
+//@   ensures EqT(TraverseSeq(fp.Seq[A]{a, b, c}, fn), specTraverse3(a, b, c, fn))
+//@   tag seq
+//@   ensures EqT(seqOfIter(Traverse(fp.IteratorOfSeq(fp.Seq[A]{a, b, c}), fn)), specTraverse3(a, b, c, fn))
+//@   tag iterator
+//@   ensures EqT(seqOfSlice(TraverseSlice([]A{a, b, c}, fn)), specTraverse3(a, b, c, fn))
+//@   tag slice
+//@   ensures EqT(Traverse_(fp.IteratorOfSeq(fp.Seq[A]{a, b, c}), fn), specTraverseUnit3(a, b, c, fn))
+//@   tag unit
+//@   ensures EqT(seqOfSlice(FlatMapTraverseSlice(fp.Success([]A{a, b, c}), fn)), specTraverse3(a, b, c, fn))
+//@   tag flatMapTraverse
+//
+//@ lemma trySequence3[A any](ta, tb, tc fp.Try[A])
+//@   prop C02
+//@   option unroll
+//@   ensures Eq(seqOfSlice(Sequence([]fp.Try[A]{ta, tb, tc})), specSequence3(ta, tb, tc))
+//@   tag slice
+//@   ensures Eq(seqOfIter(SequenceIterator(iterator.Of(ta, tb, tc))), specSequence3(ta, tb, tc))
+//@   tag iterator
